@@ -633,7 +633,7 @@ fn join2<RA: Send, RB: Send>(drv: &Driver, a: impl FnOnce() -> RA + Send, b: imp
         // SAFETY: the spawned simulated thread is always joined before this function returns
         // (also when `a` panics: the join happens in the guard), exactly like a scoped thread.
         let bb: Box<dyn FnOnce() + Send + 'static> = unsafe { std::mem::transmute(bb) };
-        let h = verif_simrt::thread::spawn(bb);
+        let h = verif_simrt::thread::spawn_named("user", bb);
         struct J(Option<verif_simrt::thread::JoinHandle<()>>);
         impl Drop for J {
             fn drop(&mut self) {
